@@ -1,21 +1,25 @@
 import CashewsVerif.Driver.RedisProto
 import CashewsVerif.Model.ClientSide
+import CashewsVerif.Model.ClientSidePrefix
 /-
 Driver for C20 (interactive, one flushed answer line per request line).
 
-  reset <n>                     n clients; new stub server (nobody tracking yet), new model (everybody started)
+  reset <n> [<hexprefix>]       n clients; new stub server (nobody tracking yet), new model (everybody started); the configured
+                                `client_side_prefix` (default "cashews:"): the stub server's keys carry it, the model's do not -
+                                `sget` / `smatch` / `dump` translate with `addPrefix` / `removePrefix` of Model/ClientSidePrefix.lean
   enc <hex>…                    payloads the serializer decodes
   srv <i> <tok>…                wire command of client i on the stub server → reply; modifications are announced to the tracking clients
   srvadv <ms>                   time passes on the stub server (expiries are announced)
   track <i> / untrack <i>       client i's invalidation connection subscribes / is gone (pending announcements are lost)
   pop <i>                       next announcement for client i:  K<hexkey>,…  |  F  |  none
   qlen                          pending announcements per client (stub)
-  sget <hexkey>                 what the stub server holds under that key:  v=<value>|-  present=T|F
-  smatch <hexpat>               what the stub server holds under the keys matching that pattern:  ks=<hexkey>,… ps=<hexkey>=<value>,…
+  sget <hexkey>                 what the stub server holds under addPrefix(key):  v=<value>|-  present=T|F
+  smatch <hexpat>               what the stub server holds under the keys matching addPrefix(pattern), keys through removePrefix:
+                                ks=<hexkey>,… ps=<hexkey>=<value>,…   (a key that does not start with the prefix is shown as ?<hex>)
   op <command>                  one step of the client-side model → model=<out> q=<pending announcements per client>
                                 (`refuse <i>` = a reconnect attempt of the dropped client i that is refused)
   loc <i> <hexkey>…             the model's local copy of client i at this point:  started=T|F loc=<hexkey>=<value>|A,…  (live entries only)
-  dump                          stub keyspace / model keyspace
+  dump                          stub keyspace (keys through removePrefix, ?<hex> if they do not start with the prefix) / model keyspace
 -/
 open CashewsVerif CashewsVerif.Redis CashewsVerif.Redis.Proto CashewsVerif.Redis.CS
 
@@ -24,6 +28,7 @@ structure DSt where
   stub : St
   model : St
   encs : List String
+  pfx : String := "cashews:"
 
 def mkSt (encs : List String) (started : Bool) : St :=
   { srv := Srv.init,
@@ -59,6 +64,16 @@ def parseCOp? (n : Nat) : List String → Option CS.Op
   | ["adv", dt] => do pure (.adv (← dt.toNat?))
   | _ => none
 
+/-- a key of the stub server as the caller names it: `removePrefix`, checked to be the inverse of `addPrefix` on this key -/
+def unpfx (p k : String) : String := if addPrefix p (removePrefix p k) = k then removePrefix p k else "?" ++ k
+
+def dumpStub (p : String) (t : KS) : String :=
+  let ks := t.dom.filter t.present
+  s!"{t.now}[" ++ " ".intercalate (ks.map fun k =>
+    match t.find k with
+    | some e => toHex (unpfx p k) ++ ":" ++ showRVal e.val ++ "@" ++ (match e.dl with | some d => toString d | none => "-")
+    | none => "?") ++ "]"
+
 def showMsg : Msg → String
   | .flush => "F"
   | .keys ks => "K" ++ ",".intercalate (ks.map toHex)
@@ -69,8 +84,12 @@ def step (st : DSt) (line : String) : DSt × String :=
   match words line with
   | ["reset", n] =>
     match n.toNat? with
-    | some k => ({ n := k, stub := mkSt st.encs false, model := mkSt st.encs true, encs := st.encs }, "ok")
+    | some k => ({ n := k, stub := mkSt st.encs false, model := mkSt st.encs true, encs := st.encs, pfx := "cashews:" }, "ok")
     | none => (st, "bad-op")
+  | ["reset", n, hp] =>
+    match n.toNat?, key? hp with
+    | some k, some pf => ({ n := k, stub := mkSt st.encs false, model := mkSt st.encs true, encs := st.encs, pfx := pf }, "ok")
+    | _, _ => (st, "bad-op")
   | "enc" :: hs =>
     let encs := hs ++ st.encs
     ({ st with encs := encs, stub := { st.stub with isEnc := fun h => encs.contains h },
@@ -104,13 +123,15 @@ def step (st : DSt) (line : String) : DSt × String :=
   | ["sget", k] =>
     match key? k with
     | some key =>
-      (st, s!"v={showOptCVal (srvValue st.stub key)} present={if st.stub.srv.ks.present key then "T" else "F"}")
+      let wk := addPrefix st.pfx key
+      (st, s!"v={showOptCVal (srvValue st.stub wk)} present={if st.stub.srv.ks.present wk then "T" else "F"}")
     | none => (st, "bad-op")
   | ["smatch", p] =>
     match key? p with
     | some pat =>
-      let ks := Ref.matching st.stub.srv.ks pat
-      (st, showOut (.keys ks) ++ " " ++ showOut (.pairs (ks.filterMap fun k => (srvValue st.stub k).map fun v => (k, v))))
+      let ks := Ref.matching st.stub.srv.ks (addPrefix st.pfx pat)
+      (st, showOut (.keys (ks.map (unpfx st.pfx))) ++ " " ++
+        showOut (.pairs (ks.filterMap fun k => (srvValue st.stub k).map fun v => (unpfx st.pfx k, v))))
     | none => (st, "bad-op")
   | "op" :: ws =>
     match parseCOp? st.n ws with
@@ -127,7 +148,7 @@ def step (st : DSt) (line : String) : DSt × String :=
           toHex k ++ "=" ++ (match e.val with | .val v => showCVal v | .absent => "A")
       (st, s!"started={if cl.started then "T" else "F"} loc={",".intercalate ents}")
     | _, _ => (st, "bad-op")
-  | ["dump"] => (st, s!"stub={dumpKS st.stub.srv.ks} model={dumpKS st.model.srv.ks}")
+  | ["dump"] => (st, s!"stub={dumpStub st.pfx st.stub.srv.ks} model={dumpKS st.model.srv.ks}")
   | _ => (st, "bad-op")
 
 partial def loop (h : IO.FS.Stream) (out : IO.FS.Stream) (st : DSt) : IO Unit := do
